@@ -70,8 +70,11 @@ func (e *c06env) feed(stream []byte, class string) []frame.Frame {
 	e.rep.Eval(1)
 	var out []frame.Frame
 	guard(e.rep, "what=panic", func() interface{} { return vh.Hex(stream) }, func() {
-		rd := &frame.Reader{ByteReader: bytes.NewReader(stream), DialectRW: e.drw(), InKey: e.key}
-		_ = rd.Initialize()
+		rd, ierr := newFrameSource(bytes.NewReader(stream), e.drw(), e.key)
+		if ierr != nil {
+			e.rep.Violation("what=rejected-valid", "a keyed reader with a valid configuration could not be built: "+ierr.Error(), nil)
+			return
+		}
 		for calls := 0; calls <= len(stream)+1; calls++ {
 			fr, err := rd.Read()
 			if err == io.EOF {
